@@ -2,7 +2,7 @@
    s_i conj(s_i) = p_i, leaves sum_i p_i |psi_i><psi_i| - for any ensemble size k (not only powers of two), any data
    dimension d, over any field with an involutive ring morphism conj. *)
 From mathcomp Require Import all_ssreflect all_algebra.
-From QV Require Import Mixed.
+From QV Require Import Mixed MixedCircuit.
 Set Implicit Arguments. Unset Strict Implicit. Unset Printing Implicit Defensive.
 Import GRing.Theory.
 Local Open Scope ring_scope.
@@ -13,3 +13,11 @@ Theorem C14_partial_trace_purification :
   Psi psi s *m adj conj (Psi psi s) = rho_ens conj psi p.
 Proof. exact: partial_trace_purification. Qed.
 Print Assumptions C14_partial_trace_purification.
+
+(* in-circuit purification: auxiliary register in sum_a s_a|a>, then every preparation W_i controlled on aux = i (any order
+   of distinct indices would do; the code uses 0..k-1): the joint state is Psi[a, x] = s_a (W_a e_0)[x], i.e. the purification
+   of the ensemble psi_i = W_i|0..0> - MODULAR in the inner initializer (C01) and Qiskit's .control(ctrl_state) *)
+Theorem C14_in_circuit_purification : forall (F : fieldType) (k d : nat) (W : 'I_k -> 'M[F]_d) (s : 'I_k -> F) (z : 'I_d),
+  foldr (cstep W) (Psi0 s z) (enum 'I_k) = target W s z.
+Proof. move=> F k d W s z. exact: in_circuit_purification. Qed.
+Print Assumptions C14_in_circuit_purification.
